@@ -178,7 +178,17 @@ impl StreamId {
         
         // Same millisecond, increment sequence
         let seq = last_seq.fetch_add(1, Ordering::Relaxed);
-        StreamId::new(prev_millis, seq + 1)
+        match seq.checked_add(1) {
+            Some(next_seq) => StreamId::new(prev_millis, next_seq),
+            None => {
+                // Sequence part exhausted: continue in the next millisecond
+                // (callers make sure the ID space itself is not exhausted)
+                let next_millis = prev_millis.wrapping_add(1);
+                last_millis.store(next_millis, Ordering::Relaxed);
+                last_seq.store(0, Ordering::Relaxed);
+                StreamId::new(next_millis, 0)
+            }
+        }
     }
     
     pub fn min() -> Self {
@@ -364,6 +374,13 @@ impl Stream {
     }
     
     /// Add entry with specific ID - DIRECT MUTATION, NO CLONING!
+    /// False once the greatest possible ID has been used: no auto-generated ID
+    /// could be greater than the last one any more.
+    pub fn has_room_for_auto_id(&self) -> bool {
+        let data = self.data.lock().unwrap();
+        data.last_id < StreamId::max()
+    }
+    
     pub fn add_with_id(&self, id: StreamId, fields: HashMap<Vec<u8>, Vec<u8>>) -> Result<(), &'static str> {
         let mut data = self.data.lock().unwrap();
         data.add_with_id(id, fields, self)
